@@ -160,11 +160,13 @@ def real_init(env, v, call=False, empty=False):
     from shexer.shaper import Shaper
     def _al(*a): raise Hang()
     old = signal.signal(signal.SIGALRM, _al)
-    signal.alarm(45)
+    import impl
+    signal.alarm(impl.budget(45))
     try:
         try:
             sh = Shaper(**env.kwargs(v, empty=empty))
         except Hang:
+            impl.HANGS[0] += 1
             return "hang", None
         except Exception as e:
             return canon_exc(e), None
@@ -174,6 +176,7 @@ def real_init(env, v, call=False, empty=False):
             sh.shex_graph(string_output=True)
             return "ok", "ok"
         except Hang:
+            impl.HANGS[0] += 1
             return "ok", "hang"
         except Exception as e:
             return "ok", canon_exc(e)
